@@ -112,6 +112,8 @@ def run(ctx, rep):
         rep.guarded("R02-CANCEL", lambda: r_cancel(sh, rep, t, "R02-CANCEL"))
     rep.rule("R02-DELAYSCAN", "occurrence analysis: the body of a delayed branch is scanned as not-delayed only where the sibling branch is `error`", floor=2)
     rep.guarded("R02-DELAYSCAN", lambda: r_delayscan(sh, rep, "R02-DELAYSCAN"))
+    rep.rule("R02-CURRYDEF", "builtin currying: a curried definition that applies the curried name of its argument prefix is built only when every argument of that prefix is a constant (only those get a definition)", floor=2)
+    rep.guarded("R02-CURRYDEF", lambda: r_currydef(sh, rep, "R02-CURRYDEF"))
     rep.guarded("R02-CASE", lambda: r_case(sh, rep))
     rep.guarded("R02-WALK", lambda: r_walk(sh, rep))
     rep.guarded("R02-ONLY", lambda: r_only(sh, rep))
@@ -654,3 +656,44 @@ def r_delayscan(sh, rep, rid):
                 rep.check(ok, rid, "carry_args_to_branch#scans-delay-inside#%s#line-offset-%d" % (a["p"], n_ok), sh.loc(SHR, c), "`%s` is the inside of a branch's delay here, and it is scanned as if it were certain to execute without a test that the sibling branch is `error` (guards on this path: %s): a single-use binding is then inlined into one branch of an if/else, and when the other branch is taken the binding's abort never happens" % (a["p"], sorted(guards) or "none"), sample={"name": a["p"], "guards": sorted(guards)})
     if n_ok < 2:
         rep.bad(rid, "carry_args_to_branch#exception-sites", sh.loc(SHR, fn), "only %d scan(s) of a delay's inside found; the `else error` / `then error` exceptions are 2 (anchor)" % n_ok)
+
+
+# ---------------------------------------------------------------------------------------------------------
+# R02-CURRYDEF: definitions emitted by builtin_curry_reducer are closed
+# ---------------------------------------------------------------------------------------------------------
+def r_currydef(sh, rep, rid):
+    """builtin_curry_reducer names partial applications of a builtin by the path of their arguments and hoists those that
+    occur three times. The definition for a path [a1..an] is `(<name of [a1..a(n-1)]>) an`: it *uses* the name of its
+    prefix. The loop that registers definitions skips non-constant arguments, so a prefix containing a variable has no
+    definition of its own; a definition built on top of it refers to a name nobody binds, and the optimiser's final
+    conversion to de Bruijn indices panics with FreeUnique — a compiler crash on valid input (three calls
+    `slice_bytearray(x, 2, _)`). Rule: in that loop, the statement that refers to the prefix's name is preceded by a
+    test-and-skip on `every remaining prefix argument is a constant`."""
+    f = [fn for q, fn in all_fns(sh.file(SHR)) if q.endswith("builtin_curry_reducer")]
+    if not f:
+        raise AnchorMissing("builtin_curry_reducer")
+    rep.touched(SHR, "Program::builtin_curry_reducer")
+    loops = [n for n in walk(f[0]["body"]) if n.get("k") in ("While", "WhileLet", "Loop") and "id_vec.pop()" in sh.nsrc(SHR, n.get("cond") or n)[:200]]
+    if not loops:
+        loops = [n for n in walk(f[0]["body"]) if n.get("k") == "While" and "id_vec" in sh.nsrc(SHR, n["cond"])]
+    loops = [l for l in loops if any(c.get("k") == "Call" and call_name(c) == "id_vec_function_to_var" for c in walk(l["body"])) and any(c.get("k") == "MethodCall" and c["m"] == "insert" for c in walk(l["body"]))]
+    if not loops:
+        raise AnchorMissing("the registration loop over id_vec in builtin_curry_reducer")
+    lp = loops[0]
+    stmts = lp["body"].get("stmts", [])
+    use_idx = None
+    for i, st in enumerate(stmts):
+        if any(c.get("k") == "Call" and call_name(c) == "id_vec_function_to_var" for c in walk(st)):
+            use_idx = i
+            break
+    skip_const = skip_prefix = None
+    for i, st in enumerate(stmts[: use_idx if use_idx is not None else 0]):
+        e = st.get("e", st)
+        if e.get("k") == "If" and any(x.get("k") in ("Continue", "Break", "Return") for x in walk(e["then"])):
+            c = sh.nsrc(SHR, e["cond"])
+            if "Term::Constant" in c and "id_vec" in c and re.search(r"\.(any|all)\(", c):
+                skip_prefix = i
+            elif "Term::Constant" in c and "id_vec" not in c:
+                skip_const = i
+    rep.check(use_idx is not None and skip_const is not None, rid, "builtin_curry_reducer#registers-constants-only", sh.loc(SHR, lp), "the registration loop must skip non-constant arguments before it builds a definition (anchor for the rule below)", nontrivial=False)
+    rep.check(use_idx is not None and skip_prefix is not None, rid, "builtin_curry_reducer#prefix-is-defined", sh.loc(SHR, stmts[use_idx]) if use_idx is not None else sh.loc(SHR, lp), "a curried definition refers to the curried name of its argument prefix (id_vec_function_to_var over the remaining id_vec) without first skipping prefixes that contain a non-constant argument: such a prefix is never defined, the hoisted definition has a free variable and aiken_optimize_and_intern's `try_from(..).unwrap()` panics (FreeUnique)", sample={"loop_statements": len(stmts)})
